@@ -212,25 +212,35 @@ def run_installation(job):
                    lambda r: cc.match_zone_control(gen, r, cc.zone_intent(zid, power="on"))),
                   ("zone-off", lambda: z.set_power(A.ZonePowerState.OFF), "zone-control",
                    lambda r: cc.match_zone_control(gen, r, cc.zone_intent(zid, power="off")))]
-    for seq in itertools.product(range(len(alpha)), repeat=3):
-        w.net.auto = None
-        w.net.live()[-1].peer_eof()
-        w.loop.settle()
+    for mode, seq in itertools.product(("outage", "burst", "stalled"), itertools.product(range(len(alpha)), repeat=3)):
+        if mode == "outage":
+            w.net.auto = None
+            w.net.live()[-1].peer_eof()
+            w.loop.settle()
+        elif mode == "stalled":
+            # the console's window is closed: every call's write parks in drain() until it reopens
+            w.net.live()[-1].pause()
+            w.loop.settle()
         n0 = len(w.console.requests)
+        # (all three calls are started in the same loop iteration: concurrent tasks of the application)
         recs = [w.call(alpha[i][1], alpha[i][0]) for i in seq]
         w.loop.settle()
-        w.net.auto = "accept"
-        w.net.resolve_all(True)
+        if mode == "outage":
+            w.net.auto = "accept"
+            w.net.resolve_all(True)
+        elif mode == "stalled":
+            w.net.live()[-1].resume()
         w.loop.settle()
         n += 3
         names = [alpha[i][0] for i in seq]
-        label = f"at{gen} calls {names} issued during one outage"
+        label = f"at{gen} calls {names} issued " + {"outage": "during one outage", "burst": "concurrently on a live link",
+                                                     "stalled": "concurrently while the console's window is closed"}[mode]
         frames = [r for r in w.console.requests[n0:] if not r[2].startswith("req-")]
         if any(r["status"] != "returned" for r in recs):
             bad.append((f"at{gen}:outage-sequence:rejected", f"{label}: call statuses {[r['status'] for r in recs]}"))
             continue
         if len(frames) != 3:
-            bad.append((f"at{gen}:outage-sequence:frame-count", f"{label}: {len(frames)} command frames after the re-connection"))
+            bad.append((f"at{gen}:outage-sequence:frame-count", f"{label}: {len(frames)} command frames reached the console"))
             continue
         for i, f in zip(seq, frames):
             try:
